@@ -128,7 +128,8 @@ impl<T: Clone + Copy + Number + PartialOrd + Neg<Output = T>> Banded<T> {
             }
             for i in k + 1..l {
                 //dum = au[ i ][ 0 ] / au[ k ][ 0 ];
-                dum = au[(i, 0)] / au[(k, 0)];
+                // a zero pivot means the whole column is zero (singular matrix): nothing to eliminate, det = 0
+                dum = if au[(k, 0)] == T::zero() { T::zero() } else { au[(i, 0)] / au[(k, 0)] };
                 //al[ k ][ i - k - 1 ] = dum;
                 al[(k, i - k - 1)] = dum;
                 for j in 1..mm {
